@@ -89,9 +89,19 @@ def gen(rng, tier, quarantine=()):
     rng.shuffle(recs)  # activation order drawn by the scheduler
     ops += recs
     live = []
+    # a subscriber of an overridable probe (attached after the override) fails on its k-th event:
+    # the failure aborts that call, and must leave nothing behind for the bindings that follow
+    failing = None
+    if "no-failing-subscriber" not in quarantine and rng.random() < 0.2 and not refusal \
+            and not focus.startswith("#") and "." not in focus:
+        ov = [r for r in recs if r["kind"] == "overridable"]
+        if ov:
+            failing = rng.choice(ov)["id"]
     for r in recs:
         ops.append({"op": "enter", "id": r["id"]})
         live.append(r["id"])
+        if r["id"] == failing:
+            ops.append({"op": "stage", "id": failing, "kind": "accum", "cap": focus, "raises": rng.choice([1, 1, 2, 3])})
         if rng.random() < 0.2:
             op = call_shape(rng, qual, fnir, "k1")
             op["tape"] = gen_tape(rng, rng.randint(0, 16), odd=0.3)
@@ -104,7 +114,7 @@ def gen(rng, tier, quarantine=()):
         ops.append({"op": "mk", "id": "bad", "kind": "probe", "sels": [bad], "nojudge": True, "expect_refusal": True})
         ops.append({"op": "enter", "id": "bad"})
     tl = 24 if tier == "quick" else 48
-    for c in range(rng.randint(1, 3)):
+    for c in range(rng.randint(1, 3) + (2 if failing else 0)):
         op = call_shape(rng, qual, fnir, "k1")
         op["tape"] = gen_tape(rng, rng.randint(0, tl), odd=0.3)
         op["faults"] = gen_faults(rng, 30, rng.choice([0, 0, 0, 1]))
